@@ -213,11 +213,15 @@ func resendOrder(r *h.Run, idx int) {
 	fail := func(key, msg string) {
 		r.Violation(key, fmt.Sprintf("resend #%d (window=%d, %d unacknowledged): %s", idx, window, k, msg), map[string]interface{}{"detail": msg, "event_log_tail": b.Log.Dump(120)})
 	}
-	// subscriber: PUBREC for some QoS 2 messages (so that PUBRELs are stored too), nothing else
+	// subscriber: PUBREC for some QoS 2 messages (so that PUBRELs are stored too) and a
+	// complete acknowledgement for some packets that are neither the oldest nor the newest
 	recFor := map[int]bool{}
+	ackFor := map[int]bool{}
 	for i := 0; i < k; i++ {
 		if rng.Intn(3) == 0 {
 			recFor[i] = true
+		} else if i > 0 && i < k-1 && rng.Intn(3) == 0 {
+			ackFor[i] = true
 		}
 	}
 	n := 0
@@ -228,6 +232,9 @@ func resendOrder(r *h.Run, idx int) {
 				n++
 				if pub.Message.QOS == 2 && recFor[i] {
 					return []packet.Generic{&packet.Pubrec{ID: pub.ID}}
+				}
+				if pub.Message.QOS == 1 && ackFor[i] {
+					return []packet.Generic{&packet.Puback{ID: pub.ID}}
 				}
 			}
 			return nil
@@ -288,6 +295,10 @@ func resendOrder(r *h.Run, idx int) {
 		r.Inconclusive(fmt.Sprintf("resend #%d: subscriber did not receive the %d messages", idx, k))
 		return
 	}
+	if err := bh.Ping(s0); err != nil { // the broker has processed the acknowledgements sent so far
+		r.Inconclusive("subscriber ping")
+		return
+	}
 	s0.Close()
 	if !b.WaitClosed("sub#0", bh.Watchdog) {
 		r.Inconclusive("subscriber client did not close")
@@ -315,8 +326,18 @@ func resendOrder(r *h.Run, idx int) {
 			state[v.ID] = "PUBREL"
 		}
 	}
+	ackedIDs := map[packet.ID]bool{}
+	for _, e := range b.Log.Events() {
+		if e.Who == "sub#0" && e.Kind == "log:packet received" {
+			if a, ok := e.Pkt.(*packet.Puback); ok {
+				ackedIDs[a.ID] = true
+			}
+		}
+	}
 	for _, id := range orderIDs {
-		original = append(original, fmt.Sprintf("%s(%d)", state[id], id))
+		if !ackedIDs[id] {
+			original = append(original, fmt.Sprintf("%s(%d)", state[id], id))
+		}
 	}
 	s1, _, ca1, err := b.Connect("sub#1", bh.ConnectOpts{ID: "c15-resub", Clean: false}, nil)
 	if err != nil || ca1 == nil {
